@@ -1,6 +1,6 @@
 (** Property C16 — suite run.  Theorem statements only. *)
 From Coq Require Import ZArith NArith List Bool Sorting.Permutation Sorting.Sorted.
-From Exactly Require Import Lib.Harness Model.Outcome Model.Suite Spec.C02 Spec.C16 Proofs.SuiteRun Gen.C16_tables.
+From Exactly Require Import Lib.Harness Model.Outcome Model.Suite Spec.C02 Spec.C16 Proofs.SuiteRun Proofs.SuiteReader Gen.C16_tables.
 Import ListNotations.
 
 (** Any error while reading the hierarchy (double inclusion, inaccessible file, syntax error):
@@ -11,6 +11,13 @@ Proof. exact invalid_suite_no_case. Qed.
 Print Assumptions C16_read_error_no_case_run.
 
 (** Cases are processed sub-suites first, then the suite's own cases, in listing order. *)
+(** The reader terminates within the fuel the model gives it, for EVERY file system (cyclic and
+    repeated references included): a read error is never the model's fuel running out.  The nesting
+    depth is bounded by the number of files because every nested read is of a file not visited before. *)
+Theorem C16_reader_never_out_of_fuel : forall fs root, read_root fs root <> inl EOutOfFuel.
+Proof. exact read_root_never_out_of_fuel. Qed.
+Print Assumptions C16_reader_never_out_of_fuel.
+
 Theorem C16_processed_is_listing : forall h, processed h = listing h.
 Proof. exact processed_is_listing. Qed.
 Print Assumptions C16_processed_is_listing.
